@@ -16,3 +16,4 @@ def rules(ctx):
     # a page released while the restored tree still references it is handed out again: referenced twice
     S.c06_r6_restore(ctx)
     S.state_writer_rules(ctx)
+    S.header_codec_rules(ctx)
